@@ -74,6 +74,7 @@ static void emu_output(const char *cmd, char *out, size_t n)
 }
 static char g_preproc_out[PATH_MAX]; static int g_preprocs;      /* the file the last emulated preprocessor wrote, and how many ran */
 static long emu_big(const char *cmd) { while (*cmd == ' ') cmd++; return strncmp(cmd, "big ", 4) ? -1 : atol(cmd + 4); }
+static long emu_gap(const char *cmd) { while (*cmd == ' ') cmd++; return strncmp(cmd, "gap ", 4) ? -1 : atol(cmd + 4); }      /* "gap N": 'a', N white-space characters (blank, tab, newline in turn), 'b', newline */
 int __wrap_system(const char *c)
 {
     if (g_exec_emul) {
@@ -89,6 +90,8 @@ int __wrap_system(const char *c)
                 snprintf(g_preproc_out, sizeof g_preproc_out, "%s", gt + 2); g_preprocs++;
                 return 0;
             }
+            long gap = emu_gap(cmd);
+            if (gap >= 0) { FILE *g = __real_fopen(gt + 2, "w"); if (g) { fputc('a', g); for (long i = 0; i < gap; i++) fputc(" \t\n"[i % 3], g); fputs("b\n", g); __real_fclose(g); } return 0; }
             FILE *f = __real_fopen(gt + 2, "w"); if (f) { if (big >= 0) { for (long i = 0; i < big; i++) fputc('x', f); fputc('\n', f); } else fputs(out, f); __real_fclose(f); } }
         return 0;
     }
